@@ -363,6 +363,13 @@ class Gpai:
                                     self.report("F0", "%s|flag-nonconst" % relname, "%s: %s writes in_ordered_choice with a non-constant" % (self.inst.label, relname), body, (b, i))
                                 else:
                                     flag = v
+                            elif adt == "Parser" and fld == "error_since_advance":
+                                self.sites["F8"].add((relname, b))
+                                if flag == 1:
+                                    self.report("F8", "%s|error-flag-in-choice" % relname,
+                                                "%s: %s sets Parser.error_since_advance while in_ordered_choice is set: set_state does not restore the flag, so after the "
+                                                "attempt is undone the next real mismatch is swallowed as if it had already been reported (an error node without a "
+                                                "diagnostic)" % (self.inst.label, relname), body, (b, i), witness(b, dk))
                             elif adt == "Parser" and fld in ("pos", "current"):
                                 self.report("F0", "%s|cursor-store" % relname, "%s: %s writes Parser.%s directly" % (self.inst.label, relname, fld), body, (b, i))
                             elif projs[-1]["adt"].startswith("closure:") or not adt:
